@@ -10,6 +10,14 @@ from .engine import Model, NotInSubset, SymIter
 from .values import SInt, SBool, is_sym, to_int, _conc_int
 
 
+class _Method(Model):
+    def __init__(self, fn):
+        self.fn = fn
+
+    def m_call(self, ex, st, args, kwargs, node):
+        return self.fn(ex, st, args, kwargs, node)
+
+
 class SDict(Model):
     def __init__(self, name):
         self.name = name
@@ -37,6 +45,20 @@ class SDict(Model):
         ki = to_int(k)
         ex.prove(st, f'no-exception:KeyError del {self.name}[...]', z3.Select(self.dom(st), ki), node)
         st.heap[(self.name, 'dom')] = z3.Store(self.dom(st), ki, z3.BoolVal(False))
+
+    def m_getattr(self, ex, st, name, node):
+        if name == 'pop':
+            def pop(ex_, st_, args, kwargs, node_):
+                if len(args) != 1 or kwargs:
+                    raise NotInSubset('dict.pop with a default')
+                v = self.m_getitem(ex_, st_, args[0], node_)
+                self.m_delitem(ex_, st_, args[0], node_)
+                return v
+            return _Method(pop)
+        raise NotInSubset(f'dict.{name}')
+
+    def m_contains(self, ex, st, k, node):
+        return SBool(z3.Select(self.dom(st), to_int(k)))
 
 
 class SList(Model):
@@ -98,6 +120,9 @@ class SList(Model):
 
     def m_len(self, ex, st, node):
         return self.length(st)
+
+    def m_truth(self, ex, st, node):
+        return self.length(st) > 0
 
     def m_iter(self, ex, st, node):
         return SymIter(self.length(st), lambda ex_, st_, k: SInt(z3.Select(self.arr(st_), to_int(k))))
